@@ -96,3 +96,11 @@ def nonincr_second_check(script, idx=None):
         return False
     n = sum(1 for c in script["cmds"][:idx] if c[0] == "check-sat")
     return n >= 1
+
+
+WRONG_SAT_FAMILIES = {
+    "ghost-vars-theory-combination-wrong-sat": lambda s, idx: ghost_combination_wrong_sat(s),
+    "uf-bool-argument-theory-combination-wrong-sat": lambda s, idx: boolarg_combination_wrong_sat(s),
+    "non-incremental-second-check-sat": lambda s, idx: nonincr_second_check(s, idx),
+    "lookahead-three-assertion-levels": lambda s, idx: lookahead_deep(s, idx),
+}
